@@ -128,6 +128,8 @@ func argumentRejected(err error) (bool, string) {
 
 const fc11Text = "cannot import array: elements do not belong to the same type"
 const fc12Text = "can't copy container"
+const fc14Text = "exceeded max nested level"
+const fc13Text ="(*CompositeValue).HashInput" // frame in the internal error's stack
 
 type c29Case struct {
 	Type     string `json:"type"`
@@ -150,6 +152,18 @@ func TestC29(t *testing.T) {
 	if fc11 {
 		res := runEntryPoint(base, true, `access(all) fun main(x: PrivatePath) {}`, []byte(`{"type":"Array","value":[]}`), host.Interp)
 		rec.ReportKnown("FC11", res.err != nil && host.ClassifyErr(res.err).Class == "internal")
+	}
+	fc13 := rec.Known("FC13")
+	if fc13 {
+		arg := `{"type":"Dictionary","value":[{"key":{"type":"Enum","value":{"fields":[{"name":"x","value":{"type":"UInt8","value":"1"}}],"id":"A.0000000000000001.C.Color"}},"value":{"type":"Bool","value":false}}]}`
+		res := runEntryPoint(base, true, "import C from 0x1\naccess(all) fun main(x: {C.Color: Bool}) {}", []byte(arg), host.Interp)
+		rec.ReportKnown("FC13", res.err != nil && host.ClassifyErr(res.err).Class == "internal")
+	}
+	fc14 := rec.Known("FC14")
+	if fc14 {
+		arg := strings.Repeat(`{"type":"Array","value":[`, 40) + `{"type":"Bool","value":true}` + strings.Repeat(`]}`, 40)
+		res := runEntryPoint(base, true, "access(all) fun main(x: Bool) {}", []byte(arg), host.Interp)
+		rec.ReportKnown("FC14", res.err != nil && host.ClassifyErr(res.err).Class == "external")
 	}
 	fc12 := rec.Known("FC12")
 	if fc12 {
@@ -237,6 +251,16 @@ func TestC29(t *testing.T) {
 				if res.err != nil {
 					rejected, name := argumentRejected(res.err)
 					info := host.ClassifyErr(res.err)
+					if fc13 && info.Class == "internal" && strings.Contains(res.err.Error(), fc13Text) {
+						rec.Excluded("FC13")
+						verdicts[who] = "rejected"
+						continue
+					}
+					if fc14 && info.Class == "external" && strings.Contains(res.err.Error(), fc14Text) {
+						rec.Excluded("FC14")
+						verdicts[who] = "rejected"
+						continue
+					}
 					if fc12 && info.Class == "external" && strings.Contains(res.err.Error(), fc12Text) {
 						rec.Excluded("FC12")
 						verdicts[who] = "rejected"
